@@ -497,41 +497,6 @@ Proof.
 Qed.
 
 (* ---------- ReleaseCIDR: only the released node's own reservations, and keys its CIDRs overlap, can go ---------- *)
-Lemma release_pcidrs_keeps cs : forall e e' r, EntryInv e -> Forall wf_pcidr cs -> release_pcidrs e cs = (e', r) ->
-  cc_assoc e' = cc_assoc e /\
-  forall f pl k, pool_of e f = Some pl -> In k (used pl) ->
-    (forall c canon, In (PGood c canon) cs -> overlapb c k = false) ->
-    exists pl', pool_of e' f = Some pl' /\ In k (used pl').
-Proof.
-  induction cs as [|pc cs IH]; intros e e' r E Hw H; cbn in H.
-  - inversion H; subst. split; [reflexivity|]. intros f pl k Hp Hk _. exists pl. split; assumption.
-  - inversion Hw; subst. destruct pc as [|x canon].
-    + inversion H; subst. split; [reflexivity|]. intros f pl k Hp Hk _. exists pl. split; assumption.
-    + destruct (cc_release e x) as [e1|er|] eqn:Er.
-      * destruct (cc_release_keeps _ _ _ E H2 Er) as [Ha1 Hk1].
-        destruct (IH e1 e' r (cc_release_inv _ _ _ E H2 Er) H3 H) as [Ha2 Hk2].
-        split; [congruence|]. intros f pl k Hp Hk Hov.
-        destruct (Hk1 f pl k Hp Hk (Hov x canon (or_introl eq_refl))) as (pl1 & Hp1 & Hin1).
-        apply (Hk2 f pl1 k Hp1 Hin1). intros c cn Hc. eapply Hov. right. exact Hc.
-      * inversion H; subst. split; [reflexivity|]. intros f pl k Hp Hk _. exists pl. split; assumption.
-      * inversion H; subst. split; [reflexivity|]. intros f pl k Hp Hk _. exists pl. split; assumption.
-Qed.
-
-Lemma release_pcidrs_inv cs : forall e e' r, EntryInv e -> Forall wf_pcidr cs -> release_pcidrs e cs = (e', r) -> EntryInv e'.
-Proof.
-  induction cs as [|pc cs IH]; intros e e' r E Hw H; cbn in H; [inversion H; subst; exact E|].
-  inversion Hw; subst. destruct pc as [|x cn]; [inversion H; subst; exact E|].
-  destruct (cc_release e x) as [e1| |] eqn:Er; try (inversion H; subst; exact E).
-  eapply IH; [eapply cc_release_inv; eassumption|exact H3|exact H].
-Qed.
-
-Lemma has_str_remove name n l : name <> n -> has_str name l = true -> has_str name (remove_str n l) = true.
-Proof.
-  intros Hne H. unfold has_str, remove_str in *. apply existsb_exists in H. destruct H as (x & Hx & He).
-  apply existsb_exists. exists x. split; [|exact He]. apply filter_In. split; [exact Hx|].
-  apply str_eqb_eq in He. subst x. destruct (str_eqb n name) eqn:E; [apply str_eqb_eq in E; congruence|reflexivity].
-Qed.
-
 Lemma occupy_service_grows e svc : EntryInv e -> wf_cidr svc -> grows e (occupy_service e svc).
 Proof.
   intros E Hw. unfold occupy_service. destruct (pool_of e (cf svc)); [|apply grows_refl].
@@ -551,6 +516,44 @@ Proof.
   - rewrite A. apply occupy_service_assoc.
 Qed.
 
+Lemma release_pcidrs_keeps svcs cs : Forall wf_cidr svcs -> forall e e' r, EntryInv e -> Forall wf_pcidr cs -> release_pcidrs svcs e cs = (e', r) ->
+  cc_assoc e' = cc_assoc e /\
+  forall f pl k, pool_of e f = Some pl -> In k (used pl) ->
+    (forall c canon, In (PGood c canon) cs -> overlapb c k = false) ->
+    exists pl', pool_of e' f = Some pl' /\ In k (used pl').
+Proof.
+  intros Hsv. induction cs as [|pc cs IH]; intros e e' r E Hw H; cbn in H.
+  - inversion H; subst. split; [reflexivity|]. intros f pl k Hp Hk _. exists pl. split; assumption.
+  - inversion Hw; subst. destruct pc as [|x canon].
+    + inversion H; subst. split; [reflexivity|]. intros f pl k Hp Hk _. exists pl. split; assumption.
+    + destruct (cc_release e x) as [e1|er|] eqn:Er.
+      * destruct (cc_release_keeps _ _ _ E H2 Er) as [Ha1 Hk1].
+        pose proof (cc_release_inv _ _ _ E H2 Er) as E1.
+        destruct (occupy_services_grows svcs e1 E1 Hsv) as [[_ Gp] Ga].
+        destruct (IH (occupy_services e1 svcs) e' r (occupy_services_inv svcs e1 E1 Hsv) H3 H) as [Ha2 Hk2].
+        split; [congruence|]. intros f pl k Hp Hk Hov.
+        destruct (Hk1 f pl k Hp Hk (Hov x canon (or_introl eq_refl))) as (pl1 & Hp1 & Hin1).
+        destruct (Gp f pl1 Hp1) as (pl2 & Hp2 & U2).
+        apply (Hk2 f pl2 k Hp2 (U2 k Hin1)). intros c cn Hc. eapply Hov. right. exact Hc.
+      * inversion H; subst. split; [reflexivity|]. intros f pl k Hp Hk _. exists pl. split; assumption.
+      * inversion H; subst. split; [reflexivity|]. intros f pl k Hp Hk _. exists pl. split; assumption.
+Qed.
+
+Lemma release_pcidrs_inv svcs cs : Forall wf_cidr svcs -> forall e e' r, EntryInv e -> Forall wf_pcidr cs -> release_pcidrs svcs e cs = (e', r) -> EntryInv e'.
+Proof.
+  intros Hsv. induction cs as [|pc cs IH]; intros e e' r E Hw H; cbn in H; [inversion H; subst; exact E|].
+  inversion Hw; subst. destruct pc as [|x cn]; [inversion H; subst; exact E|].
+  destruct (cc_release e x) as [e1| |] eqn:Er; try (inversion H; subst; exact E).
+  eapply IH; [apply occupy_services_inv; [eapply cc_release_inv; eassumption|exact Hsv]|exact H3|exact H].
+Qed.
+
+Lemma has_str_remove name n l : name <> n -> has_str name l = true -> has_str name (remove_str n l) = true.
+Proof.
+  intros Hne H. unfold has_str, remove_str in *. apply existsb_exists in H. destruct H as (x & Hx & He).
+  apply existsb_exists. exists x. split; [|exact He]. apply filter_In. split; [exact Hx|].
+  apply str_eqb_eq in He. subst x. destruct (str_eqb n name) eqn:E; [apply str_eqb_eq in E; congruence|reflexivity].
+Qed.
+
 Theorem release_cidr_keeps svcs m node m' r : MapInv m -> Forall wf_cidr svcs -> wf_node node -> release_cidr svcs m node = (m', r) ->
   forall name k, Held m name k -> name <> n_name node ->
     (forall c canon, In (PGood c canon) (n_cidrs node) -> overlapb c k = false) -> Held m' name k.
@@ -562,8 +565,8 @@ Proof.
   { clear H Hk. intros ps0. induction ps0 as [|p ps0 IH]; intros m0 m2 r2 M0 H Hk; cbn in H; [inversion H; subst; exact Hk|].
     destruct (get_entry m0 p) as [e|] eqn:Eg; [|inversion H; subst; exact Hk].
     pose proof (get_entry_inv _ _ _ M0 Eg) as Ee.
-    destruct (release_pcidrs e (n_cidrs node)) as [e' rr] eqn:Erp.
-    destruct (release_pcidrs_keeps _ _ _ _ Ee Hw Erp) as [Hassoc Hkeep].
+    destruct (release_pcidrs svcs e (n_cidrs node)) as [e' rr] eqn:Erp.
+    destruct (release_pcidrs_keeps svcs _ Hsv _ _ _ Ee Hw Erp) as [Hassoc Hkeep].
     assert (Hstep : forall e2, cc_assoc e2 = remove_str (n_name node) (cc_assoc e') \/ cc_assoc e2 = cc_assoc e' ->
               (forall f pl, pool_of e' f = Some pl -> exists pl2, pool_of e2 f = Some pl2 /\ forall c, In c (used pl) -> In c (used pl2)) ->
               Held (set_entry m0 p e2) name k).
@@ -576,12 +579,11 @@ Proof.
         exists e2, pl2. split; [eapply set_entry_new; exact Eg|]. split.
         + destruct Ha2 as [-> | ->]; [apply has_str_remove; [exact Hne|rewrite Hassoc; exact Ha]|rewrite Hassoc; exact Ha].
         + split; [exact Hp2'|apply Hu2; exact Hin']. }
-    pose proof (release_pcidrs_inv _ _ _ _ Ee Hw Erp) as Ee'.
-    destruct (occupy_services_grows svcs e' Ee' Hsv) as [[_ Gp] Ga].
+    pose proof (release_pcidrs_inv svcs _ Hsv _ _ _ Ee Hw Erp) as Ee'.
     destruct rr as [[]|er|].
     - eapply IH; [|exact H|].
-      + apply set_entry_inv; [exact M0|]. apply del_assoc_inv. apply occupy_services_inv; assumption.
-      + apply Hstep; [left; cbn; rewrite Ga; reflexivity|]. intros f pl Hpl. destruct (Gp f pl Hpl) as (pl2 & H2 & U2). exists pl2. split; [destruct f; exact H2|exact U2].
+      + apply set_entry_inv; [exact M0|]. apply del_assoc_inv. exact Ee'.
+      + apply Hstep; [left; reflexivity|]. intros f pl Hpl. exists pl. split; [destruct f; exact Hpl|auto].
     - inversion H; subst. apply Hstep; [right; reflexivity|]. intros f pl Hpl. exists pl. split; [exact Hpl|auto].
     - inversion H; subst. apply Hstep; [right; reflexivity|]. intros f pl Hpl. exists pl. split; [exact Hpl|auto]. }
   eapply G; eassumption.
@@ -705,7 +707,7 @@ Proof.
     destruct r1 as [[]|e|]; [destruct (has_str finalizer (o_fins o))|..]; inversion H; subst; exact Hc.
   - unfold reconcile_create in H. destruct (need_finalizer o || negb (is_mapped_obj m o))%bool; [|inversion H; subst; apply hcov_refl].
     unfold create_cluster_cidr in H. destruct (o_selkey o) as [k|]; [|inversion H; subst; apply hcov_refl].
-    destruct (create_set o false) as [c|e|]; try (inversion H; subst; apply hcov_refl).
+    destruct (create_set o false false) as [c|e|]; try (inversion H; subst; apply hcov_refl).
     assert (Hm : hcov m (if is_mapped m k (o_name o) then m else map_set m k c)) by (destruct (is_mapped m k (o_name o)); [apply hcov_refl|apply hcov_map_set]).
     destruct (cc_v4 c), (cc_v6 c); try (inversion H; subst; apply hcov_refl);
       (destruct (need_finalizer o); [destruct out|]; inversion H; subst; first [exact Hm|apply hcov_refl]).
